@@ -69,6 +69,8 @@ type GenStats struct {
 	Histogram   map[string]int `json:"histogram,omitempty"`
 	DistinctKeys map[string]struct{} `json:"-"`
 	DistinctList []string      `json:"distinct_keys,omitempty"`
+	StateSet     map[string]struct{} `json:"-"`
+	StateList    []string      `json:"state_keys,omitempty"`
 }
 
 type checkFunc func(t *testing.T, job *Job, res *Result)
@@ -122,6 +124,12 @@ func TestVerif(t *testing.T) {
 			res.Gen.DistinctList = append(res.Gen.DistinctList, k)
 		}
 		sort.Strings(res.Gen.DistinctList)
+	}
+	if res.Gen != nil && res.Gen.StateSet != nil {
+		for k := range res.Gen.StateSet {
+			res.Gen.StateList = append(res.Gen.StateList, k)
+		}
+		sort.Strings(res.Gen.StateList)
 	}
 	out, err := json.MarshalIndent(res, "", " ")
 	if err != nil {
